@@ -70,6 +70,15 @@ pub fn run(o: &Opts, drv: &mut Driver, rep: &mut Report) {
             _ => one(drv, rep, "random", a, b),
         }
     }
+    // periodic operands (period 1, 2, 4, 8 bytes): equal halves / quarters, the blind spot of split-and-recombine rewrites
+    for k in 0..(if thorough { 4000 } else { 64 }) * scale {
+        let per = [1usize, 2, 4, 8][(k % 4) as usize];
+        let mut pat = [0u8; 8]; rng.fill_bytes(&mut pat);
+        if k % 8 < 4 { pat = [0xff; 8]; pat[(k as usize / 8) % 8] ^= 1 << (k % 7); }
+        let mut a = [0u8; 16]; for i in 0..16 { a[i] = pat[i % per]; }
+        let mut b = [0u8; 16]; rng.fill_bytes(&mut b);
+        match k % 3 { 0 => one(drv, rep, "periodic", a, b), 1 => one(drv, rep, "periodic", b, a), _ => one(drv, rep, "periodic", a, one1) }
+    }
     one(drv, rep, "boundary", [0xff; 16], [0xff; 16]);
     one(drv, rep, "boundary", [0; 16], [0xff; 16]);
     one(drv, rep, "boundary", [0xff; 16], [0; 16]);
